@@ -349,7 +349,8 @@ func TestVerifC09(t *testing.T) {
 			// systematic: the two 2-task ingest scenarios, bounded preemptions
 			return [][]int{{1, 0}, {1, 1}, {1, 2}, {1, 3}}
 		},
-		ExhaustMax: map[string]int{"quick": 6000, "thorough": 400000},
+		ExhaustLabels: func(string, int) []string { return []string{"mode", "scn"} },
+		ExhaustMax:    map[string]int{"quick": 6000, "thorough": 400000},
 		Runs:       map[string]int{"quick": 40000, "thorough": 4000000},
 		LeakSig:    "C09/goroutine-left-after-shutdown",
 		Real:       []string{"RegistrationManager.ingestRegistration (exists / track / covert / liveness / validate windows)", "RegisteredDecoys (lock, both maps, announce-once guard, sweeper collect-then-remove)", "HandleRegUpdates / startIngestThread (worker pool, shallow buffer, non-blocking hand-off, cancellation)", "GetRegistrations / CountRegistrations / MarkActive / RemoveOldRegistrations / OnReload", "min / prefix identifiers"},
